@@ -14,8 +14,10 @@ import (
 	"errors"
 	"fmt"
 	"io"
+	nethttp "net/http"
 	"os"
 	"path/filepath"
+	"strings"
 	"testing"
 
 	"github.com/OneOfOne/xxhash"
@@ -103,6 +105,10 @@ type Calc struct {
 	ErrKind int     `json:"error_kind,omitempty"` // outcome 1: 0 bespoke error, 1 io.ErrUnexpectedEOF, 2 an error wrapping io.EOF, 3 commonerrors.ErrEOF, 4 os.ErrClosed
 	Eager   bool    `json:"eager_eof"`            // reader returns io.EOF together with the last bytes
 	WT      bool    `json:"with_writer_to"`       // reader also implements io.WriterTo
+	// Std: (complete calculations only) the content comes from a standard library reader instead of the scripted one:
+	// 1 bytes.Buffer (the zero value new(bytes.Buffer) when the content is empty), 2 strings.Reader (&strings.Reader{} when
+	// empty), 3 bytes.Reader (&bytes.Reader{} when empty), 4 http.NoBody (empty content only)
+	Std int `json:"std_reader,omitempty"`
 }
 
 type Case struct {
@@ -199,6 +205,33 @@ func runCalc(h hashing.IHash, c *Calc, via int) (string, error) {
 	if c.WT {
 		r = scriptReaderWT{sr}
 	}
+	if c.Outcome == 0 {
+		data := c.Content.Bytes()
+		switch c.Std {
+		case 1:
+			if len(data) == 0 {
+				r = new(bytes.Buffer)
+			} else {
+				r = bytes.NewBuffer(data)
+			}
+		case 2:
+			if len(data) == 0 {
+				r = &strings.Reader{}
+			} else {
+				r = strings.NewReader(string(data))
+			}
+		case 3:
+			if len(data) == 0 {
+				r = &bytes.Reader{}
+			} else {
+				r = bytes.NewReader(data)
+			}
+		case 4:
+			if len(data) == 0 {
+				r = nethttp.NoBody
+			}
+		}
+	}
 	if via == 0 && c.Outcome != 2 {
 		return h.Calculate(r)
 	}
@@ -256,6 +289,9 @@ func genCalc(t *rapid.T, label string, allowFault bool) Calc {
 	}
 	c.Eager = rapid.Bool().Draw(t, label+"-eager")
 	c.WT = rapid.Bool().Draw(t, label+"-wt")
+	if rapid.IntRange(0, 5).Draw(t, label+"-std") == 0 {
+		c.Std = rapid.IntRange(1, 4).Draw(t, label+"-std-kind")
+	}
 	if allowFault {
 		c.Outcome = rapid.IntRange(0, 2).Draw(t, label+"-outcome")
 		if c.Outcome != 0 {
